@@ -191,6 +191,20 @@ CLAIMS["C16"] = dict(
     design_ref="DESIGN.md section 4 C16, section 9, section 10",
     note=TRUSTED + " Assumed: sync.Pool returns recycled objects in steady state; append within capacity; dynamic calls (handlers) are outside the router; the compiler's -m diagnostics are complete for heap escapes.")
 
+CLAIMS["C15"] = dict(
+    technique="contract-based deductive verification of the recovery function over ghost panic/log/writer state, table audit of the credential header list, SMT",
+    text=("Proved for every recovered value and handler behaviour (recovery, partial correctness; recover() returns the value in flight and clears it): nothing in flight - nothing logged, "
+          "nothing written; a value that is an error wrapping http.ErrAbortHandler is re-raised unchanged before anything is logged or written, and only such a value is re-raised; "
+          "every other value is contained (the function returns normally), exactly one ERROR record is logged, and the recovery handler runs - with the same value - exactly when the "
+          "writer reports nothing written and the value is not a broken connection; otherwise no response status or body byte is written; a flush counts as a started response "
+          "(FlushError forwards the header first, C14). The Recovery middleware closure calls the next handler exactly once. Redaction: the yield function of the request dump writes a "
+          "header line unchanged only when isBlacklistedHeader(name) is false, and writes the name alone otherwise; isBlacklistedHeader(name) is true iff name equals a table entry "
+          "ignoring ASCII case (loop invariant); the table, read from the source on every run, contains all six names the property lists. A panic inside Updates/View: the deferred "
+          "function aborts, releases the lock, publishes nothing and re-raises the same value (C04). This exposed a genuine defect (case-sensitive redaction), repaired. "
+          "Not decided: the text of the log record beyond which Write calls happen, DumpRequest's format, connIsBroken's string matching, handler panics while the response is streaming."),
+    design_ref="DESIGN.md section 4 C15, section 9",
+    note=TRUSTED + " Assumed contracts: errors.Is, strings.EqualFold as ASCII folding, httputil.DumpRequest/bytes.Cut/iterutil.SplitBytesSeq as pure, running the iterator only calls the yield function, slog Logger.Error records one entry, Context/ResponseWriter observers.")
+
 NOT_APPLICABLE = {
     "C01": "only edge search and method index are under contract so far; matcher mechanisms not yet (DESIGN.md section 4 C01)",
     "C02": "not yet under contract in this revision (counters/guards planned, DESIGN.md §4 C02)",
